@@ -83,7 +83,7 @@ def run(case, bct, REC):
     if case.get('kind') == 'concurrent':
         from .common import concurrent_callers_agree
         REC.tag(PROP, 'exec')
-        return concurrent_callers_agree(REC, PROP, bct, [('betweenness_bin', lambda rs, n: (_cc_und(rs, n, True),)), ('betweenness_wei', lambda rs, n: (_cc_und(rs, n),)), ('edge_betweenness_bin', lambda rs, n: (_cc_und(rs, n, True),))], case['n'], case['ws'])
+        return concurrent_callers_agree(REC, PROP, bct, [('betweenness_bin', lambda rs, n: (_cc_und(rs, n, True),)), ('betweenness_wei', lambda rs, n: (_cc_und(rs, n),)), ('edge_betweenness_bin', lambda rs, n: (_cc_und(rs, n, True),))], case['n'], case['ws'], rounds=2)
     if case.get('kind') == 'degenerate':
         from .common import degenerate_sizes
         REC.tag(PROP, 'exec')
